@@ -26,7 +26,9 @@
 (*  {"op":"hang",..}                            a call never returned      *)
 (*                                                                         *)
 (* Judged per patch record (C16):                                          *)
-(*  (i)  every applier returned exactly the new file;                      *)
+(*  (i)  every applier returned exactly the new file (appliers: in-memory, *)
+(*       object, streaming x buffer size x initial position of the old-    *)
+(*       file reader - "s1024@mid" = reader handed over at the middle);    *)
 (*  (ii) the patch is a well-formed ZBSDIFF1 file whose header states      *)
 (*       |new| and Bsdiff!Apply(old, blocks) = new - the independent       *)
 (*       patcher catches a builder and patchers that agree with each other *)
